@@ -54,12 +54,15 @@ MCNext ==
   \/ /\ started /\ n < MaxSteps /\ Cardinality(rawpos) < 2
      /\ \E ids \in {<<500>>, <<400>>, <<501, 450>>} : \E via \in {"inject", "enqueue"} :
           FInject(ids) /\ H([s |-> "inject", ids |-> ids, via |-> via])
+  \* Stop + Start in the middle of a program (at most once, and before sending starts)
+  \/ /\ started /\ n < MaxSteps /\ ~\E i \in DOMAIN hist : hist[i].s \in {"restart", "send"}
+     /\ FRestart /\ H([s |-> "restart"])
   \* StartSending in the middle of a program (at most once): what was queued goes out, what is queued later follows
   \/ /\ started /\ n < MaxSteps /\ ~\E i \in DOMAIN hist : hist[i].s = "send"
      /\ UNCHANGED fvars /\ H([s |-> "send"])
 
 MCSpec == MCInit /\ [][MCNext]_mcvars
-View == <<started, mode, initId, curId, opCount, builders, queued, rawpos, n>>
+View == <<started, mode, initId, curId, opCount, builders, queued, rawpos, base, n>>
 Complete == n = MaxSteps
 Emit == (EmitOn /\ Complete) => PrintT("@@" \o ToJson(hist))
 =============================================================================
